@@ -455,4 +455,52 @@ def progPerInstance (body : List MI) : List MI :=
 
 end Legacy
 
+/-! ## Counter-model: the "I installed the entry" flag remembered per use (generator-style guard) -/
+
+namespace PerUse
+
+/-- Counter-model: a guard that remembers "I installed the entry" PER USE (a local
+variable of each `with _modules_copyable():`, e.g. a generator-based context manager)
+instead of once for all uses. `uses[t]` = the flags of the open uses of thread `t`,
+innermost first. -/
+structure P where
+  table  : Option Entry
+  rc     : Int
+  uses   : List (List Bool)
+  failed : Bool
+  deriving DecidableEq, Repr
+
+def pinit (n : Nat) : P := ⟨none, 0, List.replicate n [], false⟩
+
+inductive Act | enter (t : Nat) | exit (t : Nat) | copy (t : Nat)
+  deriving DecidableEq, Repr
+
+def pstep (s : P) : Act → Option P
+  | .enter t =>
+    if t < s.uses.length then
+      let flag := s.table.isNone
+      some { s with rc := s.rc + 1, table := if flag then some .ours else s.table,
+                    uses := s.uses.set t (flag :: s.uses.getD t []) }
+    else none
+  | .exit t =>
+    match s.uses.getD t [] with
+    | [] => none
+    | flag :: rest =>
+      let rc := s.rc - 1
+      if flag && rc == 0 then
+        some { s with rc := rc, table := none, uses := s.uses.set t rest, failed := s.failed || s.table.isNone }
+      else some { s with rc := rc, uses := s.uses.set t rest }
+  | .copy t =>
+    if (s.uses.getD t []).isEmpty then none else some { s with failed := s.failed || s.table.isNone }
+
+def prun (s : P) : List Act → Option P
+  | [] => some s
+  | a :: as => match pstep s a with
+    | none => none
+    | some s' => prun s' as
+
+def P.quiescent (s : P) : Bool := s.uses.all (·.isEmpty)
+
+end PerUse
+
 end SpecVerif.C20
